@@ -57,12 +57,17 @@ impl From<&Ethernet> for Vec<u8> {
     fn from(eth: &Ethernet) -> Self {
         let header = eth.header.borrow().clone();
         let mut bytes: Vec<u8> = (&header).into();
-        if let Some(inner) = eth.inner.borrow().clone() {
-            let data: Vec<u8> = inner.as_ref().into();
-            bytes.extend_from_slice(&data);
-        } else {
-            let data = eth.rawdata.borrow().clone();
-            bytes.extend_from_slice(&data[eth.offset..]);
+        // An inner layer that failed to parse (error object) has no bytes of
+        // its own: the captured bytes are written as they are
+        match eth.inner.borrow().clone() {
+            Some(inner) if !inner.is_error() => {
+                let data: Vec<u8> = inner.as_ref().into();
+                bytes.extend_from_slice(&data);
+            }
+            _ => {
+                let data = eth.rawdata.borrow().clone();
+                bytes.extend_from_slice(&data[eth.offset..]);
+            }
         }
         bytes
     }
